@@ -253,3 +253,34 @@ def state_equal(a, b, ignore_when=False):
 def labels_of(snap):
     return sorted((r[2], r[3]) for r in snap['book'].get('django_evolution',
                                                          []))
+
+
+def hint_tags(text):
+    """op tags (as op_tags) of the mutations in a hinted evolution file."""
+    tags = []
+    m = re.search(r'MUTATIONS = \[\n(.*)\n\]', text, re.S)
+    if not m:
+        return tags
+    for line in m.group(1).split('\n'):
+        line = line.strip()
+        mm = re.match(r'(\w+)\((.*)\),?$', line)
+        if not mm:
+            continue
+        op, args = mm.group(1), mm.group(2)
+        if op == 'ChangeField':
+            attrs = sorted(set(re.findall(
+                r'\b(db_column|db_index|db_table|decimal_places|max_digits|'
+                r'max_length|null|unique)=', args)))
+            t = op + ':' + ','.join(attrs)
+            if 'field_type=' in args:
+                t += ':type'
+            tags.append(t)
+        elif op == 'ChangeMeta':
+            pm = re.match(r"'[^']*', '([^']*)'", args)
+            tags.append(op + ':' + (pm.group(1) if pm else ''))
+        elif op == 'AddField':
+            km = re.search(r'models\.(\w+?)(Field|Key)\b', args)
+            tags.append(op + ':' + (km.group(1) if km else ''))
+        else:
+            tags.append(op)
+    return tags
